@@ -159,22 +159,43 @@ func firstDiff(a, b string) string {
 	return "equal"
 }
 
-// bisect runs test on the batch and narrows failures down to single variants.
-func bisect(fs *failSet, vs []gen.Variant, test func(vs []gen.Variant) (kind, what, detail, printed string)) {
+// bisect runs test on the batch and narrows failures down to single variants; a failure that
+// needs several variants of the batch together (state carried from one function/entity to the
+// next) is narrowed greedily to a smallest failing combination and reported as such. It returns
+// whether a failure was recorded.
+func bisect(fs *failSet, vs []gen.Variant, test func(vs []gen.Variant) (kind, what, detail, printed string)) bool {
 	if len(vs) == 0 {
-		return
+		return false
 	}
 	kind, what, detail, printed := test(vs)
 	if kind == "" {
-		return
+		return false
 	}
-	if len(vs) > 1 {
-		h := len(vs) / 2
-		bisect(fs, vs[:h], test)
-		bisect(fs, vs[h:], test)
-		return
+	if len(vs) == 1 {
+		if kind == "split" {
+			return false
+		}
+		fs.add(vs[0], kind, what, detail, printed)
+		return true
 	}
-	fs.add(vs[0], kind, what, detail, printed)
+	h := len(vs) / 2
+	a := bisect(fs, vs[:h], test)
+	b := bisect(fs, vs[h:], test)
+	if a || b || kind == "split" {
+		return a || b
+	}
+	// the batch fails although neither half does: a combination.
+	cur := append([]gen.Variant(nil), vs...)
+	for i := 0; i < len(cur) && len(cur) > 2; {
+		cand := append(append([]gen.Variant(nil), cur[:i]...), cur[i+1:]...)
+		if k, w, d, p := test(cand); k != "" && k != "split" {
+			cur, kind, what, detail, printed = cand, k, w, d, p
+		} else {
+			i++
+		}
+	}
+	fs.addCombo(cur, kind, what, detail, printed)
+	return true
 }
 
 func runC02(c *fw.Check) {
@@ -222,14 +243,11 @@ func runC02(c *fw.Check) {
 func replayC02(c *fw.Check, path string) {
 	var cs genCase
 	loadReplay(path, &cs)
-	for i, e := range gen.Catalogue() {
-		if e.Name == cs.Entry {
-			v := gen.Build(e, "replay_", 10000000*(i+1), cs.Choices)
-			fmt.Printf("replay %s %v:\n%s\n", v.Entry, v.Devs, gen.Module([]gen.Variant{v}))
-			fs := &failSet{}
-			bisect(fs, []gen.Variant{v}, c02test)
-			fs.report(c)
-		}
+	if vs := variantsOfCase(cs); len(vs) > 0 {
+		fmt.Printf("replay %s:\n%s\n", cs.Entry, gen.Module(vs))
+		fs := &failSet{}
+		bisect(fs, vs, c02test)
+		fs.report(c)
 	}
 	c.Case("a", "a")
 	c.Case("b", "b")
